@@ -1218,4 +1218,213 @@ theorem all_from {P : Params} (hc : 0 < P.cap) (hmax : P.maxA = 1) {hist : List 
     · exact hall c h1
     · exact ih (i + 1) _ _ hI' hS' (fun o ho => hsub o (by simp [ho])) hcalm.2 c h2
 
+/-! ### wrap-around -/
+
+theorem pushCap_reverse (cap : Nat) (hc : 0 < cap) (xs pre : List Metric) (m : Metric) (hl : xs.length ≤ cap)
+    (h : xs.reverse = pre.reverse.take cap) : (pushCap cap xs m).reverse = (m :: pre.reverse).take cap := by
+  obtain ⟨c, rfl⟩ : ∃ c, cap = c + 1 := ⟨cap - 1, by omega⟩
+  rw [List.take_succ_cons]
+  unfold pushCap
+  have hlen : xs.length = min (c + 1) pre.length := by
+    have := congrArg List.length h
+    simpa using this
+  by_cases hlt : xs.length < c + 1
+  · rw [if_pos hlt, List.reverse_append, List.reverse_singleton, List.singleton_append, h]
+    congr 1
+    have hp : pre.reverse.length ≤ c := by simp; omega
+    rw [List.take_of_length_le hp, List.take_of_length_le (by omega)]
+  · rw [if_neg hlt]
+    cases xs with
+    | nil => simp at hlt
+    | cons a t =>
+      simp only [List.tail_cons, List.reverse_append, List.reverse_singleton, List.singleton_append]
+      congr 1
+      simp only [List.reverse_cons] at h
+      have ht : t.reverse.length = c := by simp at hl hlt ⊢; omega
+      have := congrArg (List.take c) h
+      rw [List.take_take, List.take_left' ht] at this
+      simpa using this
+
+theorem fold_add_rep (cap : Nat) (hc : 0 < cap) : ∀ (ms : List Metric) (w : Window) (xs pre : List Metric),
+    RingRep cap w xs → xs.reverse = pre.reverse.take cap →
+    ∃ xs', RingRep cap (ms.foldl Window.add w) xs' ∧ xs'.reverse = (pre ++ ms).reverse.take cap := by
+  intro ms
+  induction ms with
+  | nil => intro w xs pre hr h; exact ⟨xs, hr, by simpa using h⟩
+  | cons m rest ih =>
+    intro w xs pre hr h
+    have := ih (w.add m) (pushCap cap xs m) (pre ++ [m]) (ringRep_add hc m hr)
+      (by rw [pushCap_reverse cap hc xs pre m hr.1 h]; simp)
+    simpa using this
+
+
+/-! ### an expired metric followed by checks only -/
+
+/-- number of alerts for (name, peer) in a list of observations -/
+def alertsFor (k : Key) : List Obs → Nat
+  | [] => 0
+  | .check a _ :: os => (alertKeys a).count k + alertsFor k os
+  | _ :: os => alertsFor k os
+
+section once
+variable (P : Params) (hmax : P.maxA = 1) (k : Key) (w0 : Window) (m : Metric)
+  (hl : w0.latest = some m) (hx : m.expired = true)
+  (hf : w0.count < accrualMin ∨ ∀ i, P.orc i k.1 k.2 = true)
+
+def S0 (s : State) : Prop := s.win k = some w0 ∧ s.cnt k = 0
+def S1 (s : State) : Prop := s.win k = some w0 ∧ s.cnt k = 1
+def S2 (s : State) : Prop := s.win k = none ∧ s.cnt k = 0
+def Gd (s : State) : Prop := (∀ k', s.cnt k' ≤ 1) ∧ k ∈ s.keys
+
+include hl hx hf in
+theorem hot_of_win (i : Nat) (s : State) (hw : s.win k = some w0) : Hot P i s k := by
+  refine ⟨by simp [latestOf, hw, hl], ?_⟩
+  unfold failedK
+  simp only [hw, hl, hx, Bool.not_true, Bool.false_eq_true, if_false]
+  rcases hf with h | h
+  · simp [h]
+  · split_ifs
+    · rfl
+    · exact h i
+
+include hmax hl hx hf in
+theorem one_check (i : Nat) (s : State) (l : List Nat) (hk : k.2 ∈ l) (hG : Gd k s) :
+    Gd k (checkPeers P i s l).1 ∧
+    (S0 k w0 s → (S1 k w0 (checkPeers P i s l).1 ∨ S2 k (checkPeers P i s l).1) ∧
+        (alertKeys (checkPeers P i s l).2).count k = 1) ∧
+    (S1 k w0 s → S2 k (checkPeers P i s l).1 ∧ (alertKeys (checkPeers P i s l).2).count k = 0) ∧
+    (S2 k s → S2 k (checkPeers P i s l).1 ∧ (alertKeys (checkPeers P i s l).2).count k = 0) := by
+  have hT := track_checkPeers P hmax i s hG.1 l
+  have hv : k ∈ (peersKeys s l).reverse := List.mem_reverse.2 (mem_peersKeys.2 ⟨mem_names hG.2, hk⟩)
+  refine ⟨⟨?_, by rw [hT.keys]; exact hG.2⟩, ?_, ?_, ?_⟩
+  · intro k'
+    rcases hT.phase k' with ⟨_, hc, _⟩ | ⟨_, _, hc, _⟩ | ⟨_, hc, _⟩
+    · rw [hc]; exact hG.1 k'
+    · omega
+    · omega
+  · rintro ⟨hw, h0⟩
+    have hh := hot_of_win P k w0 m hl hx hf i s hw
+    rcases hT.phase k with hA | ⟨hw', _, h1, hm, _⟩ | ⟨hw', hc', _, ⟨h1, _⟩ | ⟨_, hm⟩⟩
+    · exact absurd hA (hT.prog k hv hh)
+    · exact ⟨Or.inl ⟨hw' ▸ hw, h1⟩, List.count_eq_one_of_mem hT.nodup hm⟩
+    · omega
+    · exact ⟨Or.inr ⟨hw', hc'⟩, List.count_eq_one_of_mem hT.nodup hm⟩
+  · rintro ⟨hw, h1⟩
+    have hh := hot_of_win P k w0 m hl hx hf i s hw
+    rcases hT.phase k with hA | ⟨_, h0, _⟩ | ⟨hw', hc', _, ⟨_, hn⟩ | ⟨h0, _⟩⟩
+    · exact absurd hA (hT.prog k hv hh)
+    · omega
+    · exact ⟨⟨hw', hc'⟩, List.count_eq_zero_of_not_mem hn⟩
+    · omega
+  · rintro ⟨hw, h0⟩
+    have hnh : ¬ Hot P i s k := by
+      rintro ⟨h, _⟩; simp [latestOf, hw] at h
+    rcases hT.phase k with ⟨hw', hc', hn⟩ | ⟨_, _, _, _, hh⟩ | ⟨_, _, hh, _⟩
+    · exact ⟨⟨hw' ▸ hw, hc' ▸ h0⟩, List.count_eq_zero_of_not_mem hn⟩
+    · exact absurd hh hnh
+    · exact absurd hh hnh
+
+include hmax hl hx hf in
+theorem silent_after (ls : List (List Nat)) (hcov : ∀ l ∈ ls, k.2 ∈ l) :
+    ∀ (i : Nat) (s : State), Gd k s → S2 k s →
+      alertsFor k (runFrom P i s (ls.map .checkPeers)) = 0 ∧
+      S2 k (stateAfter P i s (ls.map .checkPeers)) := by
+  induction ls with
+  | nil => intro i s _ h2; exact ⟨rfl, h2⟩
+  | cons l rest ih =>
+    intro i s hG h2
+    obtain ⟨hG', _, _, h⟩ := one_check P hmax k w0 m hl hx hf i s l (hcov l (by simp)) hG
+    obtain ⟨h2', hc⟩ := h h2
+    obtain ⟨ha, hs⟩ := ih (fun l' hl' => hcov l' (by simp [hl'])) (i + 1) _ hG' h2'
+    refine ⟨?_, by simpa [stateAfter, step] using hs⟩
+    simp only [List.map_cons, runFrom, step, alertsFor]
+    rw [hc, ha]
+
+include hmax hl hx hf in
+theorem after_first (ls : List (List Nat)) (hcov : ∀ l ∈ ls, k.2 ∈ l) (i : Nat) (s : State) (hG : Gd k s)
+    (h : S1 k w0 s ∨ S2 k s) :
+    alertsFor k (runFrom P i s (ls.map .checkPeers)) = 0 ∧
+    (ls ≠ [] → S2 k (stateAfter P i s (ls.map .checkPeers))) := by
+  rcases h with h1 | h2
+  · cases ls with
+    | nil => exact ⟨rfl, fun h => absurd rfl h⟩
+    | cons l rest =>
+      obtain ⟨hG', _, h, _⟩ := one_check P hmax k w0 m hl hx hf i s l (hcov l (by simp)) hG
+      obtain ⟨h2', hc⟩ := h h1
+      obtain ⟨ha, hs⟩ := silent_after P hmax k w0 m hl hx hf rest (fun l' hl' => hcov l' (by simp [hl']))
+        (i + 1) _ hG' h2'
+      refine ⟨?_, fun _ => by simpa [stateAfter, step] using hs⟩
+      simp only [List.map_cons, runFrom, step, alertsFor]
+      rw [hc, ha]
+  · obtain ⟨ha, hs⟩ := silent_after P hmax k w0 m hl hx hf ls hcov i s hG h2
+    exact ⟨ha, fun _ => hs⟩
+
+include hmax hl hx hf in
+/-- from a state holding the stale metric with a clear counter: exactly one alert, forgotten by the second check -/
+theorem once_from (ls : List (List Nat)) (hcov : ∀ l ∈ ls, k.2 ∈ l) (i : Nat) (s : State) (hG : Gd k s)
+    (h0 : S0 k w0 s) :
+    alertsFor k (runFrom P i s (ls.map .checkPeers)) = (if ls = [] then 0 else 1) ∧
+    (2 ≤ ls.length → S2 k (stateAfter P i s (ls.map .checkPeers))) := by
+  cases ls with
+  | nil => exact ⟨rfl, fun h => by simp at h⟩
+  | cons l rest =>
+    obtain ⟨hG', h, _, _⟩ := one_check P hmax k w0 m hl hx hf i s l (hcov l (by simp)) hG
+    obtain ⟨h12, hc⟩ := h h0
+    obtain ⟨ha, hs⟩ := after_first P hmax k w0 m hl hx hf rest (fun l' hl' => hcov l' (by simp [hl']))
+      (i + 1) _ hG' h12
+    refine ⟨?_, fun hlen => ?_⟩
+    · simp only [List.map_cons, runFrom, step, alertsFor]
+      rw [hc, ha]; simp
+    · have : rest ≠ [] := by rintro rfl; simp at hlen
+      simpa [stateAfter, step] using hs this
+end once
+
+/-- operations other than checks leave the alert counters alone and keep every stored window listed -/
+theorem noCheck_state (P : Params) : ∀ (h : List Op) (i : Nat) (s : State), (∀ op ∈ h, isCheck op = false) →
+    (∀ k, s.cnt k = 0) → (∀ k, s.win k ≠ none → k ∈ s.keys) →
+    (∀ k, (stateAfter P i s h).cnt k = 0) ∧ (∀ k, (stateAfter P i s h).win k ≠ none → k ∈ (stateAfter P i s h).keys) := by
+  intro h
+  induction h with
+  | nil => intro i s _ hc hs; exact ⟨hc, hs⟩
+  | cons op rest ih =>
+    intro i s hn hc hs
+    have hrest : ∀ o ∈ rest, isCheck o = false := fun o ho => hn o (by simp [ho])
+    have hop := hn op (by simp)
+    simp only [stateAfter]
+    cases op with
+    | add m =>
+      apply ih _ _ hrest
+      · intro k; simpa [step, State.add] using hc k
+      · intro k hk
+        simp only [step, State.add, upd] at hk ⊢
+        by_cases he : k = (m.name, m.peer)
+        · subst he; split_ifs with hin
+          · simpa using hin
+          · simp
+        · simp only [he, if_false] at hk
+          have := hs k hk
+          split_ifs
+          · exact this
+          · simp [this]
+    | rmPeer p =>
+      apply ih _ _ hrest
+      · intro k; simpa [step, State.rmPeer] using hc k
+      · intro k hk
+        simp only [step, State.rmPeer] at hk ⊢
+        by_cases he : k.2 = p
+        · simp [he] at hk
+        · simp only [he, if_false] at hk; exact hs k hk
+    | rmMetrics n p =>
+      apply ih _ _ hrest
+      · intro k; simpa [step, State.rmMetrics] using hc k
+      · intro k hk
+        simp only [step, State.rmMetrics, upd] at hk ⊢
+        by_cases he : k = (n, p)
+        · simp [he] at hk
+        · simp only [he, if_false] at hk; exact hs k hk
+    | setPeers ps => exact ih _ _ hrest (by simpa [step] using hc) (by simpa [step] using hs)
+    | query n => exact ih _ _ hrest (by simpa [step] using hc) (by simpa [step] using hs)
+    | tick => simp [isCheck] at hop
+    | checkPeers l => simp [isCheck] at hop
+
 end CV.C09
